@@ -8,6 +8,12 @@ import os
 import subprocess
 import sys
 import traceback
+import warnings
+
+# the repository's own sources raise a SyntaxWarning when compiled (an invalid escape in format_markdown.py); it says nothing
+# about a property and would be repeated by every worker process
+warnings.filterwarnings("ignore", category=SyntaxWarning)
+os.environ.setdefault("PYTHONWARNINGS", "ignore::SyntaxWarning")
 
 from . import tlc
 from .common import SPEC, VERIF, MachineryError, assert_repo_binding, cleanup_work, log
